@@ -322,6 +322,19 @@ def check(run):
                     seqs.append(("seq %s : %s" % (path_, " ".join(ops)), [path_], ops))
     except RuntimeError as e:
         run.violation("machinery", "cannot build the LKCD dump with bad pages: %s" % e, {}, found_input=False)
+    # Xen domain cores: the PFN table read entry by entry through fcache_get_fb; .xen_pfn at file
+    # offsets that make an entry straddle a file-cache block (a page, with the read(2) cache)
+    try:
+        for k, off in enumerate((0x3ffc, 0x3ff9, 0x3430)):
+            xp = resdumps.elf_xen_unaligned(d, "elfxen-unaligned%d" % k, off)
+            for pol in (0, 0, 2):
+                ops = ["N0", "Y0:%d" % pol, "O0:0", "R0:1:0x0:64", "G0:0:%d" % run.rng.randrange(2), "I0"]
+                if run.rng.random() < 0.5:
+                    ops += ["C0:1:%d" % run.rng.randrange(2), "O1:0", "R1:1:0x1000:64"]
+                ops += ["O0:0", "B0", "Z%d" % run.rng.randrange(6)]
+                seqs.append(("seq %s : %s" % (xp, " ".join(ops)), [xp], ops))
+    except (RuntimeError, AssertionError) as e:
+        run.violation("machinery", "cannot build the Xen domain cores: %s" % e, {}, found_input=False)
     # s390x: VMCOREINFO found through the lowcore's os_info pointer when the OS type is set
     # (successful path; whatever it allocates must be gone after kdump_free), repeated and cloned
     s390 = resdumps.elf_s390x_osinfo(d)
@@ -367,6 +380,10 @@ def check(run):
             ops.insert(3, "C0:1:%d" % run.rng.randrange(2))
         seqs.append(("seq %s : %s" % (path, " ".join(ops)), [path], ops))
     run.count("corrupted-open-files", len(bad_opens))
+    # ---- translation systems whose methods the application replaces (allocation accounting
+    # only, no failure injected): every OS set-up of the test suite, ppc64 (the one set-up that
+    # allocates a table of its own) in all orders of replace / re-init / re-init without memory
+    sysm_stage(run)
     run.rng.shuffle(seqs)
     # in shards: a badly broken tree (hangs cost seconds each) is reported after the first shard
     shard = 100 if quick else 1000
@@ -382,6 +399,42 @@ def check(run):
                        "failure or a non-embedded geometry / a history in which at least one call failed or a clone or an "
                        "object reference outlived its context")
     run.cov["engines"]["res"] = {"chunk_cases": len(cc), "seq_cases": len(seqs)}
+
+
+def sysm_stage(run):
+    from .. import xlatcfg
+    try:
+        syscfg = xlatcfg.scenario_files(os.path.join(run.work, "syscfg"))
+        oexe = oomlib.build(run, "oom_drv")
+    except Exception as e:                       # noqa
+        run.violation("machinery", "cannot prepare the translation-system histories: %s" % e, {}, found_input=False)
+        return
+    lines = []
+    for nm, path in sorted(syscfg.items()):
+        for v in (range(16) if "ppc64" in nm else (3,)):
+            lines.append("wb_sys_meth 0 %d @%s" % (v, path))
+    out, _ = core.run_impl_lines(oexe, run.work, lines, timeout=600, env=ASAN_ENV)
+    seen = set()
+    for line, o in zip(lines, out):
+        _, kv = oomlib.parse_line(o)
+        run.note_case(line)
+        bad = None
+        if kv.get("res") == "died" or "san" in kv and kv.get("san", "-") != "-":
+            bad = "died: " + o[:200]
+        elif kv.get("leak", "-") not in ("-", "?"):
+            nm = oomlib.resolve(oexe, oomlib.addresses_in(kv))
+            bad = "leak of blocks allocated at " + "+".join(sorted({nm.get(p_.split("*")[0], p_) for p_ in kv["leak"].split(",")}))
+        elif kv.get("held", "0") not in ("0", "?"):
+            bad = "lock held"
+        if bad:
+            sig = "res sysm " + re.sub(r"0x[0-9a-f]+", "", bad)
+            if sig in seen:
+                continue
+            seen.add(sig)
+            run.violation("impl", "translation system life cycle breaks C15: %s; case: %s" % (bad, line),
+                          {"engine": "oom_drv (no failure injected)", "case": line, "implementation": o[:400]},
+                          found_input=True, signature=sig)
+    run.count("sys-meth-histories", len(lines))
 
 
 def judge_chunks(run, exe, cc, out):
